@@ -7,6 +7,8 @@ import PortusModel.Driver.Ctl
 import PortusModel.Props.C06
 import PortusModel.Props.C10
 import PortusModel.Props.C13
+import PortusModel.Props.C14
+import PortusModel.Props.C03
 import PortusModel.Driver.Lang
 /-! `ORC <id> Cnn <input> <observed…>`: evaluate the property oracle `Cnn.check` on behaviour observed
 from the implementation. Answers `PASS` or `FAIL`. -/
@@ -200,6 +202,51 @@ def orcC13 (args : List String) : String :=
       | _, _, _ => "BADARG"
     | ["ERR"] => "PASS"
     | _ => "FAIL"
+  | _ => "BADARG"
+
+def cmpObsImage (obs : List String) : Option (Out Bytes) :=
+  match obs with
+  | "OK" :: img :: _ => (fromHex img).map .ok
+  | ["ERR"] => some .err
+  | ["PANIC"] => some .panic
+  | ["ABORT"] => some .panic
+  | _ => none
+
+def orcC14 (args : List String) : String :=
+  match splitAt "@@" args with
+  | [[pos, digits], obs] =>
+    match cmpObsImage obs with
+    | none => "FAIL unparsable-observation"
+    | some o =>
+      let ds := digits.toList
+      if ds.isEmpty ∨ !ds.all Lang.isAsciiDigit then "BADARG" else
+      match pos with
+      | "operand" => passFail (C14.check .operand (C14.numeralValue ds) o)
+      | "definition" => passFail (C14.check .definition (C14.numeralValue ds) o)
+      | "override" => passFail (C14.check .override (some (Lang.digitsVal ds)) o)
+      | _ => "BADARG"
+  | _ => "BADARG"
+
+def orcC03 (args : List String) : String :=
+  match splitAt "@@" args with
+  | [[src, upd], obs] =>
+    match cmpObsImage obs, fromHex src, parseNamedUpdates upd with
+    | some o, some srcb, some upd =>
+      match o with
+      | .panic => "FAIL"
+      | .err => "PASS"
+      | .ok _ =>
+        match utf8Decode srcb with
+        | none => "PASS"
+        | some cps =>
+          match Lang.parseSource (cps.map Char.ofNat) with
+          | none => "PASS"
+          | some (ds, evs) =>
+            match Lang.declareAll (Lang.Scope.new 1) ds with
+            | .ok sc0 =>
+              passFail (C03.check (C03.expectedDefs (Lang.defInstrs (Lang.applyUpdates sc0 upd).named)) evs.length o)
+            | _ => "PASS"
+    | _, _, _ => "FAIL unparsable-observation"
   | _ => "BADARG"
 
 end Portus.Driver
